@@ -111,7 +111,7 @@ func (c *Cluster) ResolveStranded() int {
 			zombie = o.inc.dead && !o.inc.graceful
 			o.inc.mu.Unlock()
 		}
-		if !zombie { // the caller of a crashed process is gone with it
+		if !zombie && !o.reported { // the caller of a crashed process is gone with it
 			c.Tr.Emit("stranded", o.Node, M{"op": o.ID, "kind": o.Kind, "arg": o.Arg, "inapi": o.fut == nil, "nodeup": up})
 		}
 		if o.fut != nil {
@@ -332,6 +332,22 @@ func (c *Cluster) Quiesce(expectConv bool) {
 			}
 		}
 	}
+	// every call made on a server that is still running must have resolved by now
+	c.mu.Lock()
+	var late []*ClientOp
+	for _, o := range c.ops {
+		if !o.Done && !o.reported {
+			late = append(late, o)
+		}
+	}
+	c.mu.Unlock()
+	for _, o := range late {
+		n := c.byID[o.Node]
+		if n.Up && o.inc == n.inc && expectConv {
+			o.reported = true
+			c.Tr.Emit("stranded", o.Node, M{"op": o.ID, "kind": o.Kind, "arg": o.Arg, "inapi": o.fut == nil, "nodeup": true})
+		}
+	}
 	fsm := M{}
 	lch := M{}
 	for _, n := range c.Nodes {
@@ -409,10 +425,13 @@ func (c *Cluster) DeliverAll(max int) int {
 		for _, r := range p {
 			if r.Phase == phReq {
 				c.Net.Deliver(r)
-			} else if r.Phase == phHandled {
-				c.Net.Reply(r)
+				c.Settle("deliver")
+			} else {
+				if r.Phase == phHandled {
+					c.Net.Reply(r)
+				}
+				c.Settle("net")
 			}
-			c.Settle("net")
 			k++
 			if k >= max {
 				break
@@ -463,6 +482,8 @@ type Weights struct {
 	SlowWrite, ReleaseWrite             int
 	Consume                             int
 	OpOnDown                            int
+	DupIS                               int // re-deliver an old InstallSnapshot (late duplicate)
+	Split                               int // random bipartition of the servers
 	MaxCrashes, MaxOps, MaxMember       int
 	MaxDown                             int
 }
@@ -522,6 +543,26 @@ func (s *sched) step() {
 		add(w.Reply, func() { c.Net.Reply(handled[rng.Intn(len(handled))]); c.Settle("reply") })
 		add(w.LoseResp, func() { c.Net.FailAfter(handled[rng.Intn(len(handled))]); c.Settle("loseresp") })
 	}
+	add(w.DupIS, func() {
+		if d := c.Net.DuplicateKind("is", rng.Intn(1<<20)); d != nil {
+			c.Settle("dup")
+		}
+	})
+	add(w.Split, func() {
+		c.Net.HealAll()
+		side := map[string]bool{}
+		for _, id := range c.Opt.Servers {
+			side[id] = rng.Intn(2) == 0
+		}
+		for _, a := range c.Opt.Servers {
+			for _, b := range c.Opt.Servers {
+				if a < b && side[a] != side[b] {
+					c.Net.SetBlocked(a, b, true)
+				}
+			}
+		}
+		c.Tr.Emit("part", "", M{"op": "split", "blocked": c.blockedJSON()})
+	})
 	add(w.Dup, func() {
 		if d := c.Net.Duplicate(rng.Intn(1 << 20)); d != nil {
 			c.Settle("dup")
